@@ -177,12 +177,15 @@ class ExecFull(ExecPlaces):
     def s_FunctionDef(self, s, fr):
         lazy = any(_dec_name(d) == "lazylist" for d in s.decorator_list)
         is_gen = any(isinstance(x, (ast.Yield, ast.YieldFrom)) for x in ast.walk(s))
-        fr.env[s.name] = Closure(s, fr.env, fr.globals, name=s.name, is_generator=is_gen, lazylist=lazy, owner=fr.fn_name)
+        clo = Closure(s, fr.env, fr.globals, name=s.name, is_generator=is_gen, lazylist=lazy, owner=fr.fn_name)
+        clo.owner_contract = fr.contract
+        fr.env[s.name] = clo
 
     # ------------------------------------------------------------------ loops
     def loop_contract(self, fr, node):
-        k = fr.loop_ordinal
-        fr.loop_ordinal += 1
+        k = self.w.loop_index.get(id(node))
+        if k is None:
+            k = -1
         c = fr.contract
         spec = None
         if c is not None and c.loops:
@@ -268,33 +271,56 @@ class ExecFull(ExecPlaces):
         t = self.truth(v)
         return z3.BoolVal(t) if isinstance(t, bool) else t
 
+    def loop_entry(self, spec, fr):
+        for nm, ty in spec.get("types", {}).items():
+            self.type_hint(fr, nm, ty)
+        for nm, text in spec.get("entry", {}).items():
+            fr.env[nm] = self.eval_value_clause(text, fr)
+
+    def loop_pre_iteration(self, spec, fr):
+        """snapshots `x0` of the variables named in spec['pre'], then spec['lets']"""
+        for nm in spec.get("pre", []):
+            fr.env[nm + "0"] = self.eval_value_clause(nm, fr)
+        for nm, text in spec.get("lets", {}).items():
+            fr.env[nm] = self.eval_value_clause(text, fr)
+
+    def loop_back_edge(self, spec, fr, node, k):
+        for h in spec.get("hints_end", []):
+            self.eval_clause(h, fr, hint=True)
+        for i, cl in enumerate(spec.get("step", [])):
+            z = self.eval_clause(cl, fr)
+            self.oblige("step", z, node, tag=f"#{k}.{i}")
+            self.p.assume(z)  # proved above; later obligations of this path may use it
+        self.check_invariant(spec, fr, "inv-keep", node, k)
+
     def s_While(self, s, fr):
         k, spec = self.loop_contract(fr, s)
         if spec is None:
             return self.unrolled_while(s, fr)
         if s.orelse:
             raise OutOfSubset("while/else")
-        for nm, ty in spec.get("types", {}).items():
-            self.type_hint(fr, nm, ty)
+        self.loop_entry(spec, fr)
         self.check_invariant(spec, fr, "inv-init", s, k)
         choice = self.p.decide(2)
         self.havoc_for_loop(s.body + [ast.Expr(s.test)], fr, spec)
         self.assume_invariant(spec, fr)
         if choice == 0:  # an arbitrary iteration
+            self.loop_pre_iteration(spec, fr)
             if not self.branch(self.eval(s.test, fr)):
                 raise PathEnd("loop guard false on the iteration path")
-            dec0 = self.eval_clause(spec["decreases"], fr) if "decreases" in spec else None
             try:
                 self.exec_block(s.body, fr)
             except _Continue:
                 pass
             except _Break:
                 return
-            self.check_invariant(spec, fr, "inv-keep", s, k)
+            self.loop_back_edge(spec, fr, s, k)
             raise PathEnd("loop back-edge")
         else:
             if self.branch(self.eval(s.test, fr)):
                 raise PathEnd("loop guard true on the exit path")
+            for h in spec.get("hints_exit", []):
+                self.eval_clause(h, fr, hint=True)
 
     def unrolled_while(self, s, fr, limit=64):
         for _ in range(limit):
@@ -348,8 +374,7 @@ class ExecFull(ExecPlaces):
             raise OutOfSubset(f"for loop at {self.where(s)} has no invariant")
         if s.orelse:
             raise OutOfSubset("for/else")
-        for nm, ty in spec.get("types", {}).items():
-            self.type_hint(fr, nm, ty)
+        self.loop_entry(spec, fr)
         # iteration source
         iter_cell = None
         if isinstance(it, SRange):
@@ -379,6 +404,7 @@ class ExecFull(ExecPlaces):
         if choice == 0:
             self.p.assume(kv.z < count)
             self.assign(s.target, elem_at(kv.z), fr, s)
+            self.loop_pre_iteration(spec, fr)
             try:
                 self.exec_block(s.body, fr)
             except _Continue:
@@ -386,10 +412,12 @@ class ExecFull(ExecPlaces):
             except _Break:
                 return
             fr.env[kname] = SV(kv.z + 1, INT)
-            self.check_invariant(spec, fr, "inv-keep", s, k)
+            self.loop_back_edge(spec, fr, s, k)
             raise PathEnd("loop back-edge")
         else:
             self.p.assume(kv.z == count)
+            for h in spec.get("hints_exit", []):
+                self.eval_clause(h, fr, hint=True)
 
     def for_iterator(self, s, fr, it, k, spec):
         """for x in <iterator cell>: the cell's position is the loop counter
@@ -405,13 +433,14 @@ class ExecFull(ExecPlaces):
             self.p.assume(c.pos < n)
             self.assign(s.target, seq_nth(c.seq, c.pos), fr, s)
             c.pos = c.pos + 1
+            self.loop_pre_iteration(spec, fr)
             try:
                 self.exec_block(s.body, fr)
             except _Continue:
                 pass
             except _Break:
                 return
-            self.check_invariant(spec, fr, "inv-keep", s, k)
+            self.loop_back_edge(spec, fr, s, k)
             raise PathEnd("loop back-edge")
         else:
             self.p.assume(c.pos >= n)
@@ -494,9 +523,27 @@ class ExecFull(ExecPlaces):
 
     def apply_spec(self, sf, args):
         zs = [lift(self.to_sv(a), t) for a, t in zip(args, sf.arg_tys)]
+        if not sf.recursive:
+            return self.expand_spec(sf, zs)
         app = sf.z(*[x.z for x in zs])
         self.unfold_spec(sf, zs, app, self.fuel)
         return SV(app, sf.res_ty)
+
+    def expand_spec(self, sf, zs):
+        params = [x.arg for x in sf.node.args.args]
+        fr = Frame(dict(zip(params, zs)), sf.globs, "spec:" + sf.name)
+        saved_bc = self.bounds_checks
+        self.bounds_checks = False
+        self.spec_mode += 1
+        try:
+            body = [st for st in sf.node.body if not (isinstance(st, ast.Expr) and isinstance(st.value, ast.Constant))]
+            if len(body) != 1 or not isinstance(body[0], ast.Return):
+                raise OutOfSubset(f"spec function {sf.name} must be a single return expression")
+            v = self.eval(body[0].value, fr)
+            return lift(self.to_sv(v, sf.res_ty), sf.res_ty)
+        finally:
+            self.spec_mode -= 1
+            self.bounds_checks = saved_bc
 
     def unfold_spec(self, sf, zs, app, fuel):
         key = (sf.name, app.sexpr())
@@ -516,11 +563,11 @@ class ExecFull(ExecPlaces):
             if len(body) != 1 or not isinstance(body[0], ast.Return):
                 raise OutOfSubset(f"spec function {sf.name} must be a single return expression")
             v = self.eval(body[0].value, fr)
-            v = lift(self.to_sv(v), sf.res_ty)
+            v = lift(self.to_sv(v, sf.res_ty), sf.res_ty)
         finally:
             self.spec_mode -= 1
             self.fuel, self.bounds_checks = saved_fuel, saved_bc
-        self.p.assume(app == v.z)
+        self.p.assume(app == v.z, definitional=True)
 
 
 class _ChainEnv(dict):
